@@ -354,7 +354,28 @@ def console_encoding_job(arg):
     ref = runner.cli_real([cmd, "--format", "json", "."], d)
     vs = ref.violations()
     r = runner.cli_real([cmd, "--format", fmt, "."], d, env={"PYTHONIOENCODING": enc, "PYTHONUTF8": "0"})
-    return {"ref_exit": ref.exit, "ref_n": None if vs is None else len(vs), "exit": r.exit, "out_len": len(r.out), "err": r.err[-200:]}
+    out = {"ref_exit": ref.exit, "ref_n": None if vs is None else len(vs), "exit": r.exit, "out_len": len(r.out), "err": r.err[-200:]}
+    if fmt in ("json", "sarif"):
+        # the rendering itself: valid UTF-8 JSON naming the same findings, whatever the console can encode
+        out["utf8"] = bool(r["out_bytes_utf8_ok"])
+        try:
+            doc = json.loads(r.out) if out["utf8"] else None
+        except ValueError as e:
+            doc, out["json_err"] = None, str(e)[:120]
+        out["parsed"] = isinstance(doc, dict)
+        key = lambda rows: sorted([str(x[0]), str(x[1]), x[2], str(x[3])] for x in rows)  # noqa: E731
+        if isinstance(doc, dict) and fmt == "json" and isinstance(doc.get("violations"), list):
+            out["same"] = key((v.get("rule_id"), v.get("file_path"), v.get("line"), v.get("message")) for v in doc["violations"]) == \
+                key((v.get("rule_id"), v.get("file_path"), v.get("line"), v.get("message")) for v in (vs or []))
+        elif isinstance(doc, dict) and fmt == "sarif":
+            try:
+                rows = [(x["ruleId"], x["locations"][0]["physicalLocation"]["artifactLocation"]["uri"], x["locations"][0]["physicalLocation"]["region"]["startLine"], x["message"]["text"])
+                        for run in doc["runs"] for x in run["results"]]
+                out["same"] = key(rows) == key((v.get("rule_id"), v.get("file_path"), v.get("line"), v.get("message")) for v in (vs or []))
+            except (KeyError, IndexError, TypeError) as e:
+                out["same"], out["json_err"] = False, "sarif shape: %r" % (e,)
+        out["head"] = r.out[:160]
+    return out
 
 
 def run_console_encodings(ctx):
@@ -363,7 +384,7 @@ def run_console_encodings(ctx):
     clean = {"src/clean.py": "def ok(a):\n    return a\n"}
     hostile = {"src/caf\u00e9 \u751f\u6210.py": "def größe(a):\n    print(a)\n    return a * 4711\n", "src/plain.py": "def p(a):\n    print(a)\n    return a * 4712\n"}
     jobs = [(files, cmd, enc, fmt) for files, cmd in ((clean, "nesting"), (clean, "magic-numbers"), (hostile, "magic-numbers"), (hostile, "improper-logging"))
-            for enc in ("latin-1", "ascii", "cp1252") for fmt in (("text", "json", "sarif") if not ctx.quick else ("text",))]
+            for enc in ("latin-1", "ascii", "cp1252") for fmt in ("text", "json", "sarif")]
     for (files, cmd, enc, fmt), o in zip(jobs, runner.pmap(console_encoding_job, jobs, timeout=300)):
         if not o.get("ok"):
             ctx.inconclusive_if(True, "console-encoding job failed in harness: %s" % str(o)[:200])
@@ -378,6 +399,11 @@ def run_console_encodings(ctx):
         if v["exit"] != v["ref_exit"]:
             ctx.discrepancy("exit-code-under-console-encoding:%s" % ("clean-run" if files is clean else "non-ascii-report"), "`%s --format %s .` with PYTHONIOENCODING=%s: exit %s, the same run with a UTF-8 console: exit %s with %d violation(s) (stderr: %s)" % (
                 cmd, fmt, enc, v["exit"], v["ref_exit"], v["ref_n"], v["err"][-120:]), {"argv": [cmd, "--format", fmt, "."], "env": {"PYTHONIOENCODING": enc}}, files)
+        if fmt in ("json", "sarif"):
+            ctx.count("console_encoding_documents_parsed")
+            if not (v.get("utf8") and v.get("parsed") and v.get("same")):
+                ctx.discrepancy("rendering-malformed-under-console-encoding:%s" % fmt, "`%s --format %s .` with PYTHONIOENCODING=%s: stdout valid UTF-8=%s, parses as a JSON document=%s, names the findings of the UTF-8 run=%s (%s) - starts %r" % (
+                    cmd, fmt, enc, v.get("utf8"), v.get("parsed"), v.get("same"), v.get("json_err", ""), v.get("head", "")[:100]), {"argv": [cmd, "--format", fmt, "."], "env": {"PYTHONIOENCODING": enc}}, files)
 
 
 def empty_key_job(arg):
